@@ -158,6 +158,13 @@ func VerifC14Injective() {
 	t2 := storeTypes[vstub.NdChoice("type2", len(storeTypes))]
 	w1 := append([]string{"id-w0"}, c14Writers("w1")...)
 	w2 := append([]string{"id-w0"}, c14Writers("w2")...)
+	if vstub.NdChoice("compound-writer", 2) == 1 {
+		// one key of the second list is COMPOUND: two key-shaped segments around a
+		// symbolic separator byte (a list must not be confused with another list whose
+		// keys, joined by some separator, spell the same text)
+		w2 = append(w2[:len(w2):len(w2)], "id-"+vstub.NdString("w2SegA", 1)+vstub.NdString("w2Sep", 1)+"id-"+vstub.NdString("w2SegB", 1))
+		vstub.Cover("compound-writer-key")
+	}
 	a1, err1 := p1.DetermineAddress(ctx, n1, t1, &DetermineAddressOptions{AccessController: acParams(w1)})
 	a2, err2 := p1.DetermineAddress(ctx, n2, t2, &DetermineAddressOptions{AccessController: acParams(w2)})
 	if err1 != nil || err2 != nil {
